@@ -247,6 +247,22 @@ def conversation(run, pv, rng, length, threshold, abrupt, label,
             conn.register_packet_listener(slow, _P)
             run.count('conversations.slow_listener')
             w['slow_listener'] = True
+        if label % 7 == 3 and length <= 12:
+            # a slow *outgoing* listener: writing the library's own answers
+            # takes the application longer than one 50 ms tick (synchronous
+            # logging, a blocking call); the conversation is the same
+            from minecraft.networking.packets import serverbound as _sbp
+            slow_budget = [6]
+
+            def slow_out(_packet):
+                if slow_budget[0] > 0:
+                    slow_budget[0] -= 1
+                    time.sleep(0.08)
+            conn.register_packet_listener(
+                slow_out, _sbp.play.KeepAlivePacket, outgoing=True,
+                early=label % 2 == 0)
+            run.count('conversations.slow_outgoing_listener')
+            w['slow_outgoing_listener'] = True
         if warmup:
             conn.allowed_proto_versions = {warm_pv}
             conn.connect()
@@ -845,6 +861,21 @@ def run(run):
                                      % (i, pv, info))
         elif info and len(run.samples) < 3:
             run.sample(info)
+    # directed: short conversations with a slow outgoing listener (label % 7
+    # == 3 selects it)
+    for k, pv in enumerate((340, 757, 47, 404)):
+        if not run.mine(k):
+            continue
+        outcome = None
+        for attempt in range(3):
+            outcome, info = conversation(run, pv, rng, 8, None, False,
+                                         3 + 7 * (100 + k))
+            if outcome == 'done':
+                break
+        run.case((pv, 8, None, False, 'slow-outgoing-listener', k))
+        if outcome != 'done':
+            run.inconclusive_because('slow outgoing listener (pv %d): %s'
+                                     % (pv, info))
     # directed: conversations containing frames of the largest legal sizes
     for k, (pv, th) in enumerate(((757, 64), (340, 0), (756, 256), (47, 64),
                                   (755, 64))):
